@@ -133,6 +133,8 @@ pub enum TAct {
     Stash(OpId),
     /// Block until the op has started running
     WaitStart(OpId),
+    /// Block until the scheduling call of the op has returned
+    WaitRet(OpId),
     /// Block until the monitor has observed the whole process quiet and has evaluated the mid-run pipe conditions
     Checkpoint,
     /// Call every waker that an operation body stashed earlier (an event source that kept the waker of a completed operation)
@@ -195,6 +197,10 @@ pub struct Phase {
     pub dying_op2: Option<OpId>,
     /// Issued by a fresh caller thread once the dying threads are gone and while the `occupy` holds are still closed; must complete then
     pub after_deaths: Vec<TAct>,
+    /// (with `lower_while_busy`) holds of temporary bodies that are opened - and whose bodies must have ended - before the maximum is
+    /// lowered: they occupied the first pool threads so that the bodies that stay blocked sit on the threads that will be retired.
+    /// The `after_deaths` operations are then issued while the despawn is waiting for those threads, and must complete meanwhile.
+    pub release_first: Vec<usize>,
 }
 
 #[derive(Clone, Debug)]
@@ -354,7 +360,7 @@ fn tact_code(a: &TAct) -> u64 {
     match a {
         TAct::Op(o) => 10_000 + *o as u64, TAct::Join(o) => 20_000 + *o as u64, TAct::DropHeld(o) => 30_000 + *o as u64,
         TAct::Resume(o, b) => 40_000 + *o as u64 * 2 + *b as u64, TAct::HandResumer(o) => 50_000 + *o as u64, TAct::ReleaseMortal => 7, TAct::PanicRelease => 8,
-        TAct::PipeCreate(p) => 60_000 + *p as u64, TAct::Consume(p, n) => 70_000 + (*p as u64) * 100 + (*n as u64 % 97), TAct::DropStream(p) => 80_000 + *p as u64, TAct::Push(p) => 90_000 + *p as u64, TAct::Attempt(k, o) => 95_000 + *k as u64 * 10 + *o as u64, TAct::AttemptJoin(o) => 96_000 + *o as u64, TAct::Stash(o) => 97_000 + *o as u64, TAct::WaitStart(o) => 98_000 + *o as u64, TAct::Checkpoint => 99_000, TAct::FireStashedWakers => 99_001,
+        TAct::PipeCreate(p) => 60_000 + *p as u64, TAct::Consume(p, n) => 70_000 + (*p as u64) * 100 + (*n as u64 % 97), TAct::DropStream(p) => 80_000 + *p as u64, TAct::Push(p) => 90_000 + *p as u64, TAct::Attempt(k, o) => 95_000 + *k as u64 * 10 + *o as u64, TAct::AttemptJoin(o) => 96_000 + *o as u64, TAct::Stash(o) => 97_000 + *o as u64, TAct::WaitStart(o) => 98_000 + *o as u64, TAct::WaitRet(o) => 98_500 + *o as u64, TAct::Checkpoint => 99_000, TAct::FireStashedWakers => 99_001,
     }
 }
 
